@@ -97,6 +97,8 @@ class RF(object):
 
     def __init__(self, num, den=None):
         self.num, self.den = num, (den if den is not None else p_const(1))
+        if not self.num:
+            self.den = p_const(1)          # the zero function: keep no denominator (it would survive sums as a common factor)
 
     def __add__(self, o):
         if self.den == o.den:
@@ -122,6 +124,26 @@ class RF(object):
 
     def subst(self, atom, q):
         return RF(p_subst(self.num, atom, q), p_subst(self.den, atom, q))
+
+    def subst_rf(self, atom, P, Qd):
+        """substitute the rational function P/Qd for atom (the common power of Qd cancels between num and den)"""
+        def hom(p):
+            deg = max([dict(m).get(atom, 0) for m in p] or [0])
+            return deg
+        n = max(hom(self.num), hom(self.den))
+        pw_p, pw_q = {0: p_const(1)}, {0: p_const(1)}
+        for j in range(1, n + 1):
+            pw_p[j] = p_mul(pw_p[j - 1], P)
+            pw_q[j] = p_mul(pw_q[j - 1], Qd)
+
+        def conv(p):
+            out = {}
+            for m, c in p.items():
+                e = dict(m).get(atom, 0)
+                rest = tuple((a, k) for a, k in m if a != atom)
+                out = p_add(out, p_mul({rest: c}, p_mul(pw_p[e], pw_q[n - e])))
+            return out
+        return RF(conv(self.num), conv(self.den))
 
 
 def fconst(bv):
@@ -273,8 +295,15 @@ class Extract(object):
             if len(arm) == 1 and arm[0][0] == 's' and arm[0][1].kind == 'arg' and arm[0][2] == 0 and arm[0][1].width == w:
                 return (('s', arm[0][1], 0, w),)
             return None
-        cands_a = [widen(x_)] + [T.cat(x_, T.const(w - k, 0))]
-        cands_b = [widen(y_)] + [T.cat(y_, T.const(w - k, 0))]
+        def cands(arm):
+            full = widen(arm)
+            out = [full, T.cat(arm, T.const(w - k, 0))]
+            if w - k == 1:
+                out.append(T.cat(arm, T.const(1, 1)))            # -|.|
+                if full is not None:
+                    out.append(T.fneg(full))                      # the negated term
+            return out
+        cands_a, cands_b = cands(x_), cands(y_)
         for A_ in cands_a:
             for B_ in cands_b:
                 if A_ is None or B_ is None:
@@ -304,6 +333,8 @@ class Extract(object):
                     full = T.cat(arm, T.const(1, 0))
                     sub = self.cases_abs(self._widen_slice(arm, w), depth + 1)
                     ck = T._key(t.ops[0])
+                    self.conds = getattr(self, 'conds', {})
+                    self.conds[ck] = t.ops[0]
                     for (c, f) in sub:
                         m = _merge_conds([c, ((ck, taken),)]) if d is None else c
                         if m is not None:
